@@ -154,6 +154,27 @@ def _scrubbers(ctx):
         t = ' '.join(norm(s) for s in walk_local(fi.node) if isinstance(s, ast.stmt))
         ctx.shape('scrubbed.append(elem)' in t and 'for elem in data' in t and 'return scrubbed' in t, 'SIB',
                   f"{fi.qualname}: every cell is kept (converted or as is)")
+    # sibling agreement on the plain cell: what each scrubber appends for a
+    # cell that is neither dict nor list/tuple (csv.writer renders None as '')
+    plain = []
+    for fi in scrubs:
+        apps = [c for c in walk_local(fi.node) if isinstance(c, ast.Call) and isinstance(c.func, ast.Attribute)
+                and c.func.attr == 'append' and len(c.args) == 1 and not any(pol and 'isinstance' in norm(t)
+                                                                             for t, pol in guards(c))]
+        plain.append((fi, apps[-1].args[0] if apps else None))
+    if all(v is not None for _f, v in plain):
+        kinds = []
+        for fi, v in plain:
+            wrapped = isinstance(v, ast.Call) and dotted(v.func) in ('str', 'repr', 'format') or isinstance(v, ast.JoinedStr)
+            kinds.append('converted' if wrapped else 'as-is' if isinstance(v, ast.Name) else 'other')
+        bad = set(kinds) == {'converted', 'as-is'}
+        culprit = next((f for (f, v), k in zip(plain, kinds) if k == 'converted'), plain[0][0])
+        ctx.tri(kinds[0] == kinds[1] == 'as-is', bad, 'SIB', 'both csv writers hand a plain cell to csv.writer unchanged',
+                detail_bad=f"{culprit.qualname} converts every plain cell with str() while its sibling hands it over as is: a "
+                           f"None value is written as 'None' by one writer and as an empty cell by the other",
+                key=f"SIB|scrub_row|plain-cell|{culprit.qualname}", where=culprit.loc)
+    else:
+        ctx.undecided('SIB', 'both csv writers hand a plain cell to csv.writer unchanged', 'append site not recognised')
     ctx.shape(shapes[0] == shapes[1] and 'isinstance(elem, dict)' in shapes[0]
               and 'isinstance(elem, (list, tuple))' in shapes[0], 'SIB',
               'scrub_row / _scrub_row treat dict, list and tuple cells alike')
@@ -188,6 +209,30 @@ def _writers(ctx):
     ctx.shape("headers = True" in t and "if fp.exists() and mode == 'a'" in t and 'headers = False' in t
               and 'if headers' in t and 'writer.writerow(header_row)' in t, 'SIB',
               "tracts_to_csv: header unless the file exists and mode is 'a'")
+    for f_, label in ((csvf, 'tracts_to_csv'), (ctx.repo.func('TractWriter.__init__'), 'TractWriter')):
+        hcalls = [c for c in walk_local(f_.node) if isinstance(c, ast.Call) and 'header' in norm(c).lower()
+                  and (dotted(c.func) or '').split('.')[-1] in ('writerow', 'write_headers')]
+        construct = f"{label}: whether a header row is written depends on the mode and on the file existing"
+        if not hcalls:
+            ctx.undecided('SIB', construct, 'header-writing call not recognised')
+            continue
+        pv = set()
+        for tst, _pol in guards(hcalls[0]):
+            for nm in [x for x in ast.walk(tst) if isinstance(x, (ast.Name, ast.Attribute, ast.Call))]:
+                pv |= flow.provenance(f_.node, nm, control='sentinel')
+        params, calls = flow.prov_params(pv), {c.split('.')[-1] for c in flow.prov_calls(pv)}
+        has_mode = 'mode' in params or 'self.mode' in flow.prov_attrs(pv)
+        has_ex = 'exists' in calls or 'is_file' in calls or 'isfile' in calls
+        if not guards(hcalls[0]):
+            ctx.undecided('SIB', construct, 'header written unconditionally')
+            continue
+        ctx.tri(has_mode and has_ex, (has_ex and not has_mode) or (has_mode and not has_ex), 'SIB', construct,
+                'decision derives from `mode` and from an existence test',
+                ("the header decision looks at whether the file exists but not at `mode`: overwriting an existing file "
+                 "(mode 'w') produces a csv without header row" if has_ex else
+                 "the header decision looks at `mode` but not at whether the file exists: appending to a new file "
+                 "produces a csv without header row"),
+                key=f"SIB|{label}|header-decision|{'nomode' if has_ex else 'noexists'}", where=common.loc(f_, hcalls[0]))
     cfg_c, _ = flow.analyse(csvf.node)
     ex_c = [enclosing_stmt(n) for n in walk_local(csvf.node) if isinstance(n, ast.Call) and norm(n.func) == 'fp.exists']
     withs = [n for n in csvf.node.body if isinstance(n, ast.With)]
